@@ -53,6 +53,10 @@ def probe_spec(rng, k, ns=None, nc=None, nt=None, nsw=3, times_grid=6, tdtype='u
     for fn in (tsv or []):
         field = fn[len('cluster_'):-4]
         ids = sorted(rng.sample(range(max(sc) + 1), rng.randrange(1, max(sc) + 2)))
+        if rng.random() < .35:
+            # rows of clusters without spikes ABOVE the highest cluster id with spikes (e.g. a KSLabel row of
+            # a cluster emptied by curation): they have no id in the merged numbering
+            ids += [max(sc) + 1 + j for j in range(rng.randrange(1, 3))]
         rows = ['cluster_id\t%s' % field]
         for c in ids:
             v = {'Amplitude': '%d.5' % (k * 100 + c), 'ContamPct': str(k * 100 + c), 'KSLabel': ['good', 'mua'][c % 2]}[field]
